@@ -34,6 +34,14 @@ func init() {
 			RealStub: realStubL1,
 		},
 		PropertyPlan{
+			ID: "C04", Level: "exploration",
+			Families: []FamilyPlan{{Name: "c04", Quick: 48, Thorough: 1200, Chunk: 1, SeedTimeout: 600 * time.Second}},
+			Rule:     "each run = one batch of 25-80 simulated executions of the real controller for one setting (min,max; curve value c; maxPwmChangePerCycle m; tick 50ms..2s): fresh starts from starting requests {0,255,min,max,random...} for direct, rate-limited and default-PID, one more curve value for monotonicity, and histories (random trajectory; up to 3000 cycles idling at curve 255 / 0) before the curve becomes constant. Relational oracle: settle bound self-calibrated as 5x(max fresh settle time)+50 cycles, steady value independent of start and history, S(0)=min, S(255)=max, monotone in c, equal for direct with/without limit, within 1 for default PID, step bound m and monotone approach. distinct = setting hash; non-trivial = fresh-start executions judged",
+			Probes:   []string{"fresh-start-executions", "history-executions:idle-at-255", "history-executions:trajectory", "monotone-pair"},
+			Assume:   []string{"requests observed as PWM file content (identity map)", "the fan always reports rotation (no stall raises interfere)", "idle histories are capped at 3000 cycles per execution in this tier", "starting requests are sampled (4 fixed + random), not all 256"},
+			RealStub: realStubL1,
+		},
+		PropertyPlan{
 			ID: "C10", Level: "exploration",
 			Families: []FamilyPlan{{Name: "c10", Quick: 200, Thorough: 6000, Chunk: 8}, {Name: "c10cmd", Quick: 12, Thorough: 200, Chunk: 1, SeedTimeout: 300 * time.Second}},
 			Rule:     "each run = one neverStop fan (hwmon/file/cmd) with RPM input, constant curve value, rpmRollingWindowSize n in {1,2,3,5,10,20,50}; the rotor stalls at a seeded instant after it had been spinning (or it never spins); some stalls end by themselves; some fans have a 0-3 step range so that the maximum is reached. Oracle in counted RPM polls: a raise within 20n+20 polls of continuous 0 RPM, again after every raise; at the maximum with 0 RPM for the same bound: error reported, regulation of that fan stopped, fan restored (C03 predicate). distinct = scenario hash; non-trivial = a stall episode was observed",
